@@ -168,7 +168,7 @@ def run(ctx):
         m, ops, opts = case
         n, _, _ = nl.normalize(m)
         return judge(n, ops, opts, res, known)
-    res = hyp.run_property(ctx, cases(), check, ctx.pick(6000, 200000), known_keys=known, time_budget=ctx.pick(300, 900))
+    res = hyp.run_property(ctx, cases(), check, ctx.pick(12000, 200000), known_keys=known, time_budget=ctx.pick(300, 900))
     return common.finish(ctx, res, "exploration", RULE,
                          ["libm (Python math) evaluates the transcendental functions; tolerance tau = 1e-9*max(1,|v|)",
                           "infinite argument bounds are sampled at +-1e3 and +-1e6",
